@@ -443,6 +443,44 @@ def main() -> int:
                 n_ok += 1
                 if len(rep.samples) < 5 and kw:
                     rep.sample({"call": fp, "agrees_with": {k2: repr(v2) for k2, v2 in bound.arguments.items() if k2 != "self"}})
+        # ---- writing a default out is the same as leaving the argument away (also for parameters this table does not enumerate), and
+        # an argument for a parameter of the Python signature is never accepted and then ignored
+        def node_text(args_text2):
+            try:
+                prog2 = parse(IMPORTS + sp["prelude"] + sp["call"].format(args=args_text2) + "\n")
+            except (ValueError, SyntaxError):
+                return None
+            n2 = find_node(prog2, sp["node"])
+            # (100 and 100.0 are the same argument value)
+            return "<no node>" if n2 is None else re.sub(r"(?<![\w.])(-?\d+)\.0(?![\d])", r"\1", repr(n2))
+
+        in_order = [p2.name for p2 in sig.parameters.values() if p2.name in sp["values"] and p2.name not in sp["skip"]]
+        base_kw = {n: sp["values"][n] for n in in_order}
+        base_text = node_text(", ".join(f"{n}={v}" for n, v in base_kw.items()))
+        for p2 in sig.parameters.values():
+            if p2.name == "self" or p2.kind in (p2.VAR_POSITIONAL, p2.VAR_KEYWORD) or base_text is None:
+                continue
+            d2 = p2.default
+            has_simple_default = d2 is not inspect.Parameter.empty and (d2 is None or isinstance(d2, (bool, int, float, str)))
+            if has_simple_default:
+                if p2.name in base_kw:
+                    without = {n: v for n, v in base_kw.items() if n != p2.name}
+                    ref = node_text(", ".join(f"{n}={v}" for n, v in without.items()))
+                    got = node_text(", ".join([f"{n}={v}" for n, v in without.items()] + [f"{p2.name}={d2!r}"]))
+                else:
+                    ref = base_text
+                    got = node_text(", ".join([f"{n}={v}" for n, v in base_kw.items()] + [f"{p2.name}={d2!r}"]))
+                rep.count("explicit_default_shapes")
+                if got is not None and ref is not None and got != ref:
+                    rep.violation(f"{sp['name']}: passing `{p2.name}={d2!r}` (the signature's default) explicitly is bound differently from omitting it",
+                                  {"detail.json": json.dumps({"omitted": ref, "explicit": got}, indent=1)}, key=f"explicit-default:{sp['name']}:{p2.name}")
+            if p2.name not in sp["values"] and p2.name not in sp["skip"]:
+                # a parameter of the host signature that this table (and, presumably, the transpiler) does not know
+                rep.count("host_parameters_outside_the_table")
+                got = node_text(", ".join([f"{n}={v}" for n, v in base_kw.items()] + [f"{p2.name}=7"]))
+                if got is not None and got == base_text:
+                    rep.violation(f"{sp['name']}: `{p2.name}=7` is a parameter of the Python signature; the transpiler accepts the argument and ignores it",
+                                  {"detail.json": json.dumps({"node": got}, indent=1)}, key=f"ignored-parameter:{sp['name']}:{p2.name}")
         # ---- the same call shapes as the SECOND call of a block, after a call that passed every parameter explicitly:
         # what an earlier call bound must not leak into parameters this call omits
         if sp["call"].startswith("d.") and not sp["exprcall"]:
